@@ -166,10 +166,25 @@ func c12Run(co *caseOut, kind, tag string, in c12Input) {
 	if !ok {
 		return
 	}
+	script := in.script()
+	// VM reuse: the same script after Reset() on a VM that has just executed other scripts (see c13reuse.go) must show
+	// the same outcome and the same item-counter trace
+	if r3, ptags := c13ExecReused(script, in.Base, in.Limit, c13PickPreds(script, 0)); r3.Panic != "" {
+		co.violation(kind, "Go panic escaped Run on a reused VM: "+r3.Panic, in, r3)
+		return
+	} else {
+		same := r3.Halt == obs.Res.Halt && r3.Gas == obs.Res.Gas && r3.Stack == obs.Res.Stack && r3.Steps == obs.Res.Steps && len(r3.Refs) == len(obs.Refs)
+		for i := 0; same && i < len(r3.Refs); i++ {
+			same = r3.Refs[i] == obs.Refs[i]
+		}
+		if !same {
+			co.violation(kind, "state leaks through VM.Reset(): outcome or item-counter trace after Reset() on a VM that had executed [ "+ptags+"] differ from the fresh VM's", in, []any{obs, r3})
+			return
+		}
+	}
 	if len(obs.Res.Stack) > 150000 {
 		return
 	}
-	script := in.script()
 	refs := make([]string, len(obs.Refs))
 	for i, r := range obs.Refs {
 		refs[i] = fmt.Sprint(r)
